@@ -79,3 +79,21 @@ def behaviour_actions(path):
             name, args = m.group(1), m.group(2)
             out.append((name, [parse(a) for a in split_args(args)] if args else []))
     return out
+
+def behaviour_with_states(path):
+    """Like behaviour_actions but also returns the (single-line) variable values of each state."""
+    out, cur = [], None
+    for line in open(path):
+        m = _act.match(line)
+        if m:
+            name, args = m.group(1), m.group(2)
+            cur = [name, [parse(a) for a in split_args(args)] if args else [], {}]
+            out.append(cur)
+            continue
+        m2 = re.match(r'^/\\ (\w+) = (.*)$', line.rstrip('\n'))
+        if m2 and cur is not None:
+            try:
+                cur[2][m2.group(1)] = parse(m2.group(2))
+            except Exception:
+                pass
+    return out
